@@ -158,8 +158,9 @@ def covLe (a b : Nat Ã— Nat) : Bool := if a.1 â‰  b.1 then a.1 < b.1 else a.2 â‰
 def coverage (recs : List TocRec) : List (Nat Ã— Nat) :=
   (recs.map fun r => (r.2.1, (r.2.1 + r.2.2) % 4294967296)).mergeSort covLe
 
-/-- `header.Read` (header/tables.go:54-151) against any `io.ReaderAt` -/
-def readR (maxTables : Nat) (ra : ReaderAt) : Outcome (Nat Ã— List TocRec) :=
+/-- `header.Read` (header/tables.go:54-151) against any `io.ReaderAt`; `negErr` is the error class
+the source's answer to `ReadAt(Â·, -1)` leads to (only reached when the last allocation ends at 0) -/
+def readRG (negErr : String) (maxTables : Nat) (ra : ReaderAt) : Outcome (Nat Ã— List TocRec) :=
   match ra 0 6 with
   | .eof => .err "io"
   | .fault => .err "io"
@@ -178,13 +179,19 @@ def readR (maxTables : Nat) (ra : ReaderAt) : Outcome (Nat Ã— List TocRec) :=
         | some first, some last =>
           if first.1 < 12 then .err "invalid"
           else if overlapping cov then .err "invalid"
-          else if last.2 = 0 then .err "io"          -- ReadAt at offset -1
+          else if last.2 = 0 then .err negErr        -- ReadAt at offset -1
           else
             match ra (last.2 - 1) 1 with
             | .eof => .err "invalid"                  -- "table extends beyond EOF"
             | .fault => .err "io"
             | .ok _ => .ok (scaler, recs)
         | _, _ => .err "invalid"                      -- "no tables"
+
+/-- `header.Read` against a source that answers a negative offset with an error other than EOF
+(`bytes.Reader`, `os.File`: "negative offset").  `readRG` takes the class of that answer as a
+parameter: `io.SectionReader.ReadAt` answers a negative offset with `io.EOF`, which `header.Read`
+reports as "table extends beyond EOF" (class "invalid"). -/
+def readR (maxTables : Nat) (ra : ReaderAt) : Outcome (Nat Ã— List TocRec) := readRG "io" maxTables ra
 
 /-- a plain `io.Reader` delivering `f`, which fails (non-EOF) once `k` bytes have been
 delivered (`none` = never): what `io.ReadAll` returns -/
